@@ -349,7 +349,11 @@ fn run_history(seed: u64, cfg: &HistoryCfg, rep: &mut Report) {
                         }
                     }
                     if !v6_on.load(Ordering::SeqCst) {
-                        let (f4, n4) = pfx.iter().find(|(f, _)| *f == Family::IPV4).unwrap().clone();
+                        let (f4, n4) = pfx
+                            .iter()
+                            .find(|(f, _)| *f == Family::IPV4)
+                            .unwrap()
+                            .clone();
                         fam = f4;
                         nlri = n4;
                     }
@@ -367,7 +371,11 @@ fn run_history(seed: u64, cfg: &HistoryCfg, rep: &mut Report) {
                     } else {
                         Some(bgp::Nexthop::V6("2001:db8::1".parse().unwrap()))
                     };
-                    ops.push(format!("w{} insert {} pid{} tag{}", w, nlri, pid, t));
+                    // one announcement in eight carries no next hop at all (what a next-hop-less
+                    // family such as flowspec, or an API path that leaves it to the export side,
+                    // looks like in the RIB): nothing on the monitoring path may depend on it
+                    let nh = if rng.chance(1, 8) { None } else { nh };
+                    ops.push(format!("w{} insert {} pid{} tag{} nh={:?}", w, nlri, pid, t, nh.is_some()));
                     tables.insert_route(
                         src.clone(),
                         fam,
